@@ -26,6 +26,10 @@ def gen_model(seed, opts):
     if opts.get('scaling'):
         mg.add_output_scaling(rng, md)
     mg.assign_solvers(rng, md)
+    if not legal(md):          # assembled jacobians refuse matrix-free components: use the matrix-free DirectSolver
+        for sv in md['solvers'].values():
+            if (sv.get('ln') or {}).get('name') == 'direct':
+                sv['ln']['opts']['assemble_jac'] = False
     ref = mg.reference(md)
     if ref is None or not mg.magnitude_ok(ref):
         return None, None, rng
@@ -64,7 +68,8 @@ def legal(md):
     """assembled jacobians refuse matrix-free components"""
     if has_matfree(md):
         for sv in md['solvers'].values():
-            if (sv.get('ln') or {}).get('opts', {}).get('assemble_jac'):
+            ln = sv.get('ln') or {}
+            if ln.get('name') == 'direct' and ln.get('opts', {}).get('assemble_jac', True):
                 return False
     return True
 
@@ -78,3 +83,91 @@ def run_tlc_judge(ctx, cases, tag='cases'):
     if len(v) != len(cases):
         raise MachineryError('OMJudge returned %d verdicts for %d cases:\n%s' % (len(v), len(cases), r.tail()))
     return v
+
+
+# ---------------------------------------------------------------------------------------------------- workers
+LN_VARIANTS = [('runonce', {}), ('direct', {'assemble_jac': False}), ('direct', {'assemble_jac': True}), ('lnbgs', {}), ('lnbj', {}),
+               ('krylov', {})]
+JAC_TYPES = [None, 'dense', 'csc']
+FORMATS = ['flat_dict', 'dict', 'array']
+
+
+def plan_cfgs(rng, md, n):
+    """n configurations (mode, linear solver, assembled jacobian type, return format, driver scaling)"""
+    cfgs = []
+    modes = ['fwd', 'rev', 'auto']
+    rng.shuffle(modes)
+    lns = LN_VARIANTS[:]
+    rng.shuffle(lns)
+    for k in range(n):
+        cfgs.append({'mode': modes[k % 3], 'ln': lns[k % len(lns)], 'fmt': FORMATS[rng.randrange(3)],
+                     'scaled': rng.random() < .5, 'jac': rng.choice(JAC_TYPES)})
+    return cfgs
+
+
+def apply_cfg(md, c):
+    m = with_solver(md, ln=c['ln'])
+    if c.get('jac'):
+        for sv in m['solvers'].values():
+            if (sv.get('ln') or {}).get('name') == 'direct' and sv['ln']['opts'].get('assemble_jac'):
+                m['jac'] = c['jac']
+    return m
+
+
+def observe_case(seed, opts, ncfg, want_runs=True, want_totals=True):
+    """one generated model: returns dict(case=..., meta=...) or dict(skip=reason)"""
+    from openmdao.core.analysis_error import AnalysisError
+    md, ref, rng = gen_model(seed, opts)
+    if md is None:
+        return {'skip': 'rejected-by-generator'}
+    meta = {'seed': seed, 'cyclic': bool(md.get('cycle')), 'ncomp': len(md['comps']) - 1,
+            'chains': max([len(i['chain']) for i in md['ins']] + [0]), 'cfgs': []}
+    runs, cfgs = [], []
+    try:
+        if want_runs:
+            p = ob.build(so.without_vois(md), {'mode': 'auto'})
+            p.run_model()
+            runs.append(dict(so.observe_run(p, md, ref), chk=[i['id'] + 1 for i in md['ins']], fix=True))
+        if want_totals:
+            for c in plan_cfgs(rng, md, ncfg):
+                m = apply_cfg(md, c)
+                if not legal(m):
+                    meta['cfgs'].append(dict(c, skipped='illegal'))
+                    continue
+                rtol = 1e-7 if any((sv.get('ln') or {}).get('name') == 'krylov' for sv in m['solvers'].values()) else 1e-9
+                try:
+                    p1 = ob.build(so.without_vois(m), {'mode': c['mode']})
+                    p1.run_model()
+                    full = so.observe_full(p1, m, ref, rtol)
+                    p2 = ob.build(m, {'mode': c['mode']})
+                    p2.run_model()
+                    blocks = so.observe_blocks(p2, m, ref, c['scaled'], c['fmt'], rtol)
+                except AnalysisError:
+                    meta['cfgs'].append(dict(c, skipped='solver-did-not-converge'))
+                    continue
+                cfgs.append({'full': full, 'blocks': blocks, 'scaled': bool(c['scaled'])})
+                meta['cfgs'].append(c)
+    except AnalysisError:
+        return {'skip': 'solver-did-not-converge'}
+    except Exception as e:
+        import traceback
+        return {'exc': '%s: %s' % (type(e).__name__, e), 'tb': traceback.format_exc()[-1500:], 'meta': meta, 'md': md}
+    return {'case': so.case_record(md, ref, runs, cfgs), 'meta': meta, 'md': md}
+
+
+def _worker(args):
+    quiet()
+    seeds, opts, ncfg, wr, wt = args
+    return [observe_case(s, opts, ncfg, wr, wt) for s in seeds]
+
+
+def collect(ctx, seeds, opts, ncfg, want_runs=True, want_totals=True, nproc=16):
+    chunks = [(ch, opts, ncfg, want_runs, want_totals) for ch in split(list(seeds), nproc * 3) if ch]
+    res = pmap(_worker, chunks, nproc)
+    out = []
+    for ch, rs in zip(chunks, res):
+        for s, r in zip(ch[0], rs):
+            r['seed'] = s
+            out.append(r)
+    out.sort(key=lambda r: r['seed'])
+    return out
